@@ -6,6 +6,8 @@ package main
 // Per-curve adapters: c20_curves.go (written from c20_curves.tmpl by c20_curves.sh, no go:generate).
 
 import (
+	"bufio"
+	"bytes"
 	"fmt"
 	"math/big"
 	"strconv"
@@ -83,7 +85,53 @@ func init() {
 	generators["C20"] = c20gen
 }
 
+// c20exec answers one op line. Two wrappers turn a line into a call HISTORY inside one process (the model is pure, so it
+// answers every call of a history independently):
+//
+//	rep <k> <op …>            the same op executed k times, all k answers reported
+//	hist <op …> / <op …> / …  several ops (any curve, any kind) executed in this order, all answers reported
 func c20exec(a []string) string {
+	if len(a) >= 1 && a[0] == "rep" {
+		if len(a) < 2 {
+			return "bad-op"
+		}
+		k, err := strconv.ParseUint(a[1], 16, 32)
+		if err != nil || k < 1 || k > 16 {
+			return "bad-op"
+		}
+		res := make([]string, k)
+		for i := range res {
+			res[i] = c20execSafe(a[2:])
+		}
+		return strings.Join(res, " | ")
+	}
+	if len(a) >= 1 && a[0] == "hist" {
+		var res []string
+		seg := []string{}
+		for _, w := range a[1:] {
+			if w == "/" {
+				res = append(res, c20execSafe(seg))
+				seg = []string{}
+			} else {
+				seg = append(seg, w)
+			}
+		}
+		res = append(res, c20execSafe(seg))
+		return strings.Join(res, " | ")
+	}
+	return c20exec1(a)
+}
+
+func c20execSafe(a []string) (res string) {
+	defer func() {
+		if r := recover(); r != nil {
+			res = "panic"
+		}
+	}()
+	return c20exec1(a)
+}
+
+func c20exec1(a []string) string {
 	if len(a) < 2 {
 		return "bad-op"
 	}
@@ -265,9 +313,14 @@ func c20shifts(size int) []int64 {
 }
 
 func c20gen(gg *gen) {
+	var prev []string
 	for ci, name := range c20order {
 		c := c20curves[name]
 		g := &c20g{gen: gg, c: c, hdr: c20hdr(c), q: c.Q()}
+		// the lines of this curve are captured, so that a sample of them can be wrapped into rep / hist lines
+		realOut := gg.out
+		var buf bytes.Buffer
+		gg.out = bufio.NewWriterSize(&buf, 1<<20)
 		g.conv(ci)
 		g.shift()
 		g.evalpt()
@@ -277,6 +330,12 @@ func c20gen(gg *gen) {
 		g.divx()
 		g.ratios()
 		g.polypkg()
+		g.serx(ci)
+		g.histories()
+		gg.out.Flush()
+		gg.out = realOut
+		gg.out.Write(buf.Bytes())
+		prev = g.wrapSample(strings.Split(strings.TrimRight(buf.String(), "\n"), "\n"), prev)
 	}
 	// malformed lines
 	c := c20curves[c20order[0]]
